@@ -27,6 +27,7 @@ import (
 	"fmt"
 	"math/big"
 	"os"
+	"runtime/pprof"
 	"sort"
 	"strings"
 	"sync"
@@ -201,6 +202,8 @@ func rawPrivSig(form string) string {
 	return "raw private operation: result does not satisfy m^E = c (mod N), 0 <= m < N [form=" + form + "]"
 }
 
+const rawRangeSig = "raw private operation accepts a ciphertext representative >= N"
+
 const rawPubSig = "raw public operation: result differs from m^E mod N"
 
 // failPriv reports a failure of an operation that used zcrypto's private-key
@@ -368,8 +371,14 @@ func (x *uctx) rawInputs(family string) []rawIn {
 		add("2^(8k)-1", new(big.Int).Sub(pow2(8*ki.k), one))
 		add("2N", new(big.Int).Lsh(ki.N, 1))
 	case "pow2":
+		step := 1
+		if !x.thorough && ki.bits > 1025 {
+			step = 8 // quick tier, large keys: every 8th bit position and the top one
+		}
 		for i := 0; i < ki.bits; i++ {
-			add(fmt.Sprintf("2^%d", i), pow2(i))
+			if i%step == 0 || i == ki.bits-1 {
+				add(fmt.Sprintf("2^%d", i), pow2(i))
+			}
 		}
 	case "pow2m1":
 		for i := 2; i <= ki.bits; i++ {
@@ -412,7 +421,8 @@ func (x *uctx) runRaw(form, family string) {
 			if !inRange {
 				if err == nil {
 					w.Detail = "c >= N accepted, returned " + hx(out)
-					x.viol("raw private operation accepts a ciphertext representative >= N", w)
+					rawBad.Store(ki.name+"/"+form+"/range", true)
+					x.viol(rawRangeSig, w)
 				}
 				x.h["raw-priv:out-of-range:"+verdict(err)]++
 				continue
@@ -433,6 +443,9 @@ func (x *uctx) runRaw(form, family string) {
 			}
 			x.dist++
 			x.h["raw-priv:correct"]++
+			if idx == 5 && x.c.WantSample() {
+				x.c.Sample(map[string]any{"unit": x.u.id, "c": in.name, "m": hx(out), "oracle": "m^E mod N == c by square-and-multiply"})
+			}
 		}
 		if inRange && family == "edge" {
 			// octet string one longer than k with the same value: the statement is silent; a result must still be right.
@@ -507,6 +520,11 @@ type genSpec struct {
 
 func main() {
 	os.Setenv("GODEBUG", "rsa1024min=0") // crypto/rsa: allow the 512-bit fixture (also set by the //go:debug line)
+	if pf := os.Getenv("VERIF_C23_PPROF"); pf != "" { // tuning aid only
+		if f, err := os.Create(pf); err == nil {
+			pprof.StartCPUProfile(f)
+		}
+	}
 	ev.Main("C23", "model_checking", func(c *ev.Ctx) {
 		c.Rule("differential enumeration per key × form{plain,precomputed,swapped} × operation × parameter alphabet; " +
 			"signatures/ciphertexts: identity + every single-bit flip (keys <= 2048 bits; all keys in thorough) or byte substitutions {00,ff,^b} at every offset + {x+N, N-x, 0, 1, N-1, N} + length {prepend/append 00, drop first/last, empty}; " +
@@ -521,11 +539,15 @@ func main() {
 
 		keys := map[string]*keyInfo{}
 		var names []string
+		var rw witness
 		if c.Replay != nil {
-			var w witness
-			if err := json.Unmarshal(c.Replay, &w); err != nil {
+			if err := json.Unmarshal(c.Replay, &rw); err != nil {
 				c.Broken("bad witness: %v", err)
 			}
+		}
+		// (witnesses of the key-generation / Validate pre-checks are replayed by the full run below)
+		if c.Replay != nil && !strings.HasPrefix(rw.Unit, "gen/") && !strings.HasPrefix(rw.Unit, "validate/") {
+			w := rw
 			u := parseUnit(w.Unit)
 			if u.sect == "malformed" {
 				x := newUctx(c, u, nil)
@@ -635,7 +657,15 @@ func main() {
 		if !runAll(p2) {
 			c.Incomplete("budget hit in phase 2 (API level units)")
 		}
+		pprof.StopCPUProfile()
 		c.Set("slowest_units", slowest(8))
+		bySect := map[string]float64{}
+		timeMu.Lock()
+		for id, t := range times {
+			bySect[parseUnit(id).sect] += t
+		}
+		timeMu.Unlock()
+		c.Set("unit_seconds_by_section", bySect)
 	})
 }
 
@@ -693,8 +723,8 @@ func rawUnits(ki *keyInfo, thorough bool) []unit {
 	var us []unit
 	for _, f := range formNames {
 		fams := []string{"edge", "pow2"}
-		if thorough || ki.bits <= 1025 {
-			fams = append(fams, "pow2m1")
+		if thorough || (ki.bits <= 1025 && f == "precomputed") {
+			fams = append(fams, "pow2m1") // quick tier: only on the CRT form of keys up to 1025 bits
 		}
 		if thorough {
 			fams = append(fams, "nminus")
